@@ -74,6 +74,7 @@ def main():
     ap.add_argument("-j", type=int, default=3)
     ap.add_argument("--seeded", action="store_true", help="also run seeded/*/patch.diff against the properties in their meta.json")
     ap.add_argument("--seeded-only", action="store_true")
+    ap.add_argument("--out", default="", help="write a markdown table of the results to this file")
     a = ap.parse_args()
     only = set(x for x in a.only.split(",") if x)
     ms = []
@@ -91,6 +92,7 @@ def main():
                 ms.append({"name": name, "props": props, "patch": os.path.join(os.path.dirname(meta), "patch.diff")})
     print(f"{len(ms)} mutants")
     surv = 0
+    rows = []
     with cf.ThreadPoolExecutor(a.j) as ex:
         futs = [ex.submit(run_one, m, a.tier, i) for i, m in enumerate(ms)]
         for f in cf.as_completed(futs):
@@ -103,8 +105,17 @@ def main():
                 if r["rc"] != 1:
                     surv += 1
                 print(f"{tag} {pid} {m['name']} ({r['s']}s) {r['msg']}{r['tail']}")
+                rows.append((m["name"], pid, tag.strip(), r["s"], r["msg"].replace("|", "/")[:140]))
             sys.stdout.flush()
     print(f"not killed: {surv}")
+    if a.out:
+        rows.sort()
+        with open(a.out, "w") as f:
+            f.write(f"# Sensitivity results ({a.tier} tier), generated by tools/mutants.py\n\n")
+            f.write("Each row: a change applied to a scratch worktree of /repo HEAD, the check run against it with VERIF_REPO, and the outcome.\n\n")
+            f.write("| change | check | outcome | s | first reported violation |\n|---|---|---|---|---|\n")
+            for r in rows:
+                f.write(f"| {r[0]} | {r[1]} | {r[2]} | {r[3]} | {r[4]} |\n")
 
 
 if __name__ == "__main__":
